@@ -210,11 +210,13 @@ func c02Fixpoint(c *fw.Ctx, doc *gedcom.Document, o c02Opt, payload interface{})
 		return
 	}
 	if multilineValue {
-		// AllowMultiLine produced values with line breaks; the encoder does not
-		// split them (CONT/CONC is out of scope), so the normal form is only
-		// demanded for documents whose values are single-line.
-		c.Count("fixpoint-skipped-multiline-value", 1)
-		return
+		// AllowMultiLine produced values with line breaks. The encoder writes
+		// them as they are, which the same options read back as the same value.
+		c.Count("fixpoint-checks-with-multiline-values", 1)
+		if !o.ml {
+			c.Violation("multiline-value-without-the-option:"+o.String(), "a decoded value holds a line break although AllowMultiLine is off", payload)
+			return
+		}
 	}
 	c.Count("fixpoint-checks", 1)
 	doc2, err, pi := c02Decode([]byte(y), o)
